@@ -9,11 +9,11 @@ type life = { parent : string; writes : (wkind option) array; recs : rkind array
 let n = nat_of_int
 let i = int_of_nat
 
-let rec_of_tok fresh (t : string) : rkind =
+let rec_of_tok (t : string) : rkind =
   match String.split_on_char ':' t with
   | ["eh"; h] -> REnd (n (int_of_string h))
-  | ["prop"; h; r] -> RProp (n (int_of_string h), n (int_of_string r), fresh)
-  | ["part"; h; r] -> RPart (n (int_of_string h), n (int_of_string r))
+  | ["prop"; h; r; tx] -> RProp (n (int_of_string h), n (int_of_string r), tx = "1")
+  | ["part"; h; r; tx] -> RPart (n (int_of_string h), n (int_of_string r), tx = "1")
   | ["vote"; ty; h; r; nl] -> RVote (n (int_of_string ty), n (int_of_string h), n (int_of_string r), nl = "n")
   | ["timeout"; h; r; s] -> RTimeout (n (int_of_string h), n (int_of_string r), n (int_of_string s))
   | ["step"] -> RStep
@@ -21,9 +21,9 @@ let rec_of_tok fresh (t : string) : rkind =
   | _ -> failwith ("bad record token " ^ t)
 
 (* harness kinds (crClassify) -> model write kinds *)
-let wkind_of (kind : string) (h : int) : wkind =
+let wkind_of (kind : string) (h : int) (aux : int) : wkind =
   match kind with
-  | "block" -> if h = 0 then WGenBlock else WBlock (n h)
+  | "block" -> if h = 0 then WGenBlock else WBlock (n h, aux = 1)
   | "binfo1" -> WGenInfo
   | "canon1" -> WGenCanon
   | "headptr" -> WHeadPtr
@@ -33,7 +33,7 @@ let wkind_of (kind : string) (h : int) : wkind =
   | "trie" -> WTrie
   | "cstate" -> WCState (n h)
   | "binfo" -> WBinfo (n h)
-  | "head" -> WHead (n h)
+  | "head" -> WHead (n h, aux = 1)
   | _ -> WOther
 
 let rec take k l = if k <= 0 then [] else match l with [] -> [] | x :: t -> x :: take (k-1) t
@@ -75,27 +75,23 @@ let () =
   let lines = ref (read_lines stdin) in
   let next () = match !lines with [] -> None | l :: t -> lines := t; Some (tokens l) in
   let lives : (int, life) Hashtbl.t = Hashtbl.create 16 in
-  let sc = ref { sc_txs = (fun _ -> O); sc_appfixed = true } in
+  let sc = ref { sc_appfixed = true } in
   let rec loop () =
     match next () with
     | None -> ()
     | Some [] -> loop ()
-    | Some ("CASE" :: id :: _arch :: _snap :: _heights :: appfixed :: rest) ->
+    | Some ("CASE" :: id :: _arch :: _snap :: _heights :: appfixed :: _) ->
       Hashtbl.reset lives;
-      let txs = match rest with
-        | [t] when t <> "-" -> Array.of_list (List.map int_of_string (String.split_on_char ',' t))
-        | _ -> [||] in
-      sc := { sc_txs = (fun h -> let k = i h in if k >= 1 && k <= Array.length txs then n txs.(k-1) else O);
-              sc_appfixed = (appfixed = "1") };
+      sc := { sc_appfixed = (appfixed = "1") };
       Printf.printf "CASE %s\n" id; loop ()
     | Some ["LIFE"; id; parent; nw; _nr] ->
       let id = int_of_string id and nw = int_of_string nw in
       let recs = match next () with
-        | Some ("RECS" :: toks) -> Array.of_list (List.map (rec_of_tok (id > 0)) toks)
+        | Some ("RECS" :: toks) -> Array.of_list (List.map rec_of_tok toks)
         | _ -> failwith "expected RECS" in
       let writes = Array.init nw (fun _ ->
           match next () with
-          | Some ("W" :: "db" :: kind :: h :: _) -> Some (wkind_of kind (int_of_string h))
+          | Some ("W" :: "db" :: kind :: h :: aux :: _) -> Some (wkind_of kind (int_of_string h) (int_of_string aux))
           | Some ("W" :: "wal" :: _) -> None
           | _ -> failwith "expected W") in
       Hashtbl.replace lives id { parent; writes; recs };
